@@ -238,7 +238,7 @@ def rand_ws(rng):
         if rng.random() < 0.7:
             out.append([k, {"kind": "data", "obj": rand_obj(rng, nd=rng.randint(1, 2), hist=rng.randint(0, 2))}])
         else:
-            out.append([k, {"kind": "dict", "kv": rand_kv(rng, rng.randint(1, 4), allow_none=False, allow_ndarr=True)}])
+            out.append([k, {"kind": "dict", "kv": rand_kv(rng, rng.choice([0, 1, 2, 4]), allow_none=False, allow_ndarr=True)}])   # also {}
     return out
 
 
